@@ -4,7 +4,6 @@ import (
 	"bytes"
 	"encoding/hex"
 	"fmt"
-	"sort"
 	"strings"
 
 	"github.com/nspcc-dev/neo-go/pkg/core/mpt"
@@ -219,6 +218,7 @@ type savedProof struct {
 
 type c10 struct {
 	p        *C10Plan
+	soft     *sim.Violation
 	out      *sim.Outcome
 	log      *sim.Log
 	tape     *sim.Tape
@@ -276,8 +276,11 @@ func runC10(p *C10Plan) *sim.Outcome {
 	c.log.Addf("c10 mode=%d keys=%d vals=%d ops=%d dirty_find=%v quiet=%v miss_at=%d", p.Mode, len(c.keys), len(c.vals), len(p.Ops), p.DirtyFind, p.Quiet, p.MissAt)
 
 	v := c.run()
+	if v == nil {
+		v = c.soft
+	}
 	if v != nil && c.tainted && v.Class != "harness" {
-		v.Sig += "+reads-after-batch"
+		// (attribution only: the aliasing defect that made reads after PutBatch dangerous was fixed in be621b0)
 		c.out.Probes["violation_in_run_with_reads_after_batch"]++
 	}
 	c.out.Summary = map[string]any{"prop": "C10", "mode": p.Mode, "keys": len(c.keys), "ops": len(p.Ops), "miss_at": p.MissAt, "dirty_find": p.DirtyFind, "quiet": p.Quiet, "isolate": p.Isolate}
@@ -597,6 +600,7 @@ func (c *c10) step(i int, op C10Op) *sim.Violation {
 			if v := c.reload(i, 0); v != nil {
 				return v
 			}
+			c.log.Addf("%d   isolate: flush(%d) + reload", i, c.flushIdx)
 		}
 	case opFlush:
 		if v := c.flush(i); v != nil {
@@ -871,7 +875,17 @@ func (c *c10) seek(i int, op C10Op) *sim.Violation {
 		} else {
 			dir += "/nostart"
 		}
-		return sim.Violatef("seek", "seek/mismatch/"+dir, "step %d: Seek(prefix=%x, start=%s, %s, stop=%d): %s", i, prefix, fromName(start), dir, op.Max, d)
+		sv := sim.Violatef("seek", "seek/mismatch/"+dir, "step %d: Seek(prefix=%x, start=%s, %s, stop=%d): %s", i, prefix, fromName(start), dir, op.Max, d)
+		if strings.HasPrefix(dir, "backward/start") {
+			// backward seeks with a Start are a recorded finding (known_findings.json): the run goes on so
+			// that it cannot mask anything else; it is reported only if nothing else fails in this run.
+			if c.soft == nil {
+				c.soft = sv
+			}
+			c.out.Probes["seek_backward_start_mismatch"]++
+			return nil
+		}
+		return sv
 	}
 	if op.Back {
 		c.out.Probes["seek_backward"]++
@@ -1355,5 +1369,3 @@ func (c *c10) missingPhase(step int) *sim.Violation {
 	}
 	return nil
 }
-
-var _ = sort.Strings
